@@ -20,12 +20,12 @@ UNIT = Unit(
         Raw(path="contracts/stagegate.shim.rs"),
         Adt(file=P, kw="enum", name="CompilationError", rules=["attrs"]),
         Fn(file=P, name="compile", rename="typer_gate", ret="r",
-           cut_from="let tast = full_tast;", cut_before="let gensym = Gensym::new();", cut_tail="    Ok(())",
+           cut_from=re.compile(r"if diagnostics\.has_errors\(\) \{\s*return Err\(CompilationError::Typer \{\s*diagnostics: diagnostics\.clone\(\),\s*\}\);\s*\}\s*let tast = full_tast;|let tast = full_tast;"), cut_before="let gensym = Gensym::new();", cut_tail="    Ok(())",
            sig="fn typer_gate(diagnostics: Diagnostics, full_tast: CoreFile) -> Result<(), CompilationError>",
            obligation="type errors end the compilation with Err(Typer) before Core generation",
            contract="ensures r is Ok ==> !diagnostics.errors(), r is Err ==> r matches Err(CompilationError::Typer { .. }),"),
         Fn(file=P, name="compile", rename="core_gate", ret="r",
-           cut_from="let core = link_packages(package_cores);", cut_before="Ok(Compilation {", cut_tail="    Ok(__out)",
+           cut_from=re.compile(r"if diagnostics\.has_errors\(\) \{\s*return Err\(CompilationError::Compile \{ diagnostics \}\);\s*\}\s*let core = link_packages\(package_cores\);|let core = link_packages\(package_cores\);"), cut_before="Ok(Compilation {", cut_tail="    Ok(__out)",
            sig="fn core_gate(diagnostics: Diagnostics, package_cores: Vec<CoreFile>, genv: GlobalTypeEnv, gensym: Gensym) -> Result<BackendOut, CompilationError>",
            pre_rewrites=[(re.compile(r"let \(mono, monoenv\) = mono::mono\(genv\.clone\(\), core\.clone\(\)\);\s*let \(lifted_core, liftenv\) = lift::lambda_lift\([^;]*\);\s*"
                                      r"let \(anf, anfenv\) = anf::anf_file\([^;]*\);\s*let \(go, goenv\) = go::compile::go_file\([^;]*\);"),
